@@ -21,6 +21,7 @@ import (
 	"strconv"
 	"strings"
 	"sync"
+	"sync/atomic"
 	"time"
 
 	pt "gitlab.torproject.org/tpo/anti-censorship/pluggable-transports/goptlib"
@@ -30,6 +31,7 @@ import (
 	"gitlab.com/yawning/obfs4.git/common/probdist"
 	"gitlab.com/yawning/obfs4.git/transports"
 	"gitlab.com/yawning/obfs4.git/transports/obfs4"
+	"gitlab.com/yawning/obfs4.git/transports/obfs4/framing"
 
 	"verif/harness/vlib"
 )
@@ -808,6 +810,13 @@ type scenarioCase struct {
 	N       int    `json:"n,omitempty"`       // application write size
 	Indices []int  `json:"indices,omitempty"` // length-table indices the successive samples are steered to
 	Cap     int    `json:"cap,omitempty"`     // abort the Write after this many samples (termination probes)
+	// "foreign-seed": a validly sealed PRNG-seed packet with this seed is sent client -> server
+	Foreign string `json:"foreign,omitempty"`
+	// "reseed-race": the server streams Packets seed packets alternating SeedA (large table) and
+	// SeedB (tiny table) while the client keeps writing from another goroutine
+	SeedA   string `json:"seed_a,omitempty"`
+	SeedB   string `json:"seed_b,omitempty"`
+	Packets int    `json:"packets,omitempty"`
 }
 
 func checkAdoption(r *vlib.Run, dd, ds *vlib.Driver, p *pair, c scenarioCase) bool {
@@ -860,6 +869,170 @@ func checkAdoption(r *vlib.Run, dd, ds *vlib.Driver, p *pair, c scenarioCase) bo
 	return true
 }
 
+// seedFrame seals a PRNG-seed packet (type 1, no padding) with the given frame encoder — the
+// real encoder of one of the two endpoints, so the frame is exactly what that endpoint's obfs4
+// layer would put on the wire next and its nonce/length-mask state stays in step.
+func seedFrame(enc *framing.Encoder, seed []byte) []byte {
+	pkt := append([]byte{1, byte(len(seed) >> 8), byte(len(seed))}, seed...)
+	var frame [framing.MaximumSegmentLength]byte
+	n, err := enc.Encode(frame[:], pkt)
+	if err != nil {
+		panic(err)
+	}
+	return append([]byte(nil), frame[:n]...)
+}
+
+// ownDist builds the tables probdist gives for a seed, independently of any connection.
+func ownDist(seedHex string, max int, biased bool) *dist {
+	s, err := drbg.SeedFromHex(seedHex)
+	if err != nil {
+		panic(err)
+	}
+	w := probdist.New(s, 0, max, biased)
+	d := &obfs4.VerifDist{}
+	d.Min, d.Max, d.Biased = probdist.VerifBounds(w)
+	d.Values, d.Weights, d.Alias, d.Prob = probdist.VerifTables(w)
+	return distOf(d)
+}
+
+// foreignSeed: only the client adopts a PRNG seed. A peer holding the session keys (here: the
+// real client's encoder) sends a well-formed seed packet to the BRIDGE; the bridge's
+// distributions must stay those of its own configured seed and its bursts must keep following
+// them.
+func foreignSeed(r *vlib.Run, ds, dd *vlib.Driver, p *pair, c scenarioCase, rng *vlib.Rng) {
+	key := fmt.Sprintf("foreign-seed|%s|%s|%d|%d|%v", c.Seed, c.Foreign, c.SrvIat, c.CliIat, c.Biased)
+	r.Case(key, true)
+	r.Validated(1)
+	r.Count("foreign-seed-to-server", fmt.Sprintf("srv-iat=%d", c.SrvIat))
+	own := ownDist(c.Seed, mss, c.Biased)
+	var ownIat *dist
+	if c.SrvIat != 0 {
+		ownIat = ownDist(iatSeedOf(c.Seed), 100, c.Biased)
+	}
+	foreign, _ := hex.DecodeString(c.Foreign)
+	enc := obfs4.VerifC10Encoder(p.cli.conn)
+	if enc == nil {
+		panic("no client encoder")
+	}
+	p.srv.sc.Feed(seedFrame(enc, foreign))
+	if got, prob := drain(p.srv); got != 0 || prob != "" {
+		r.Violate("server-rejects-seed-packet", "impl-oracle", fmt.Sprintf("a sealed PRNG-seed packet sent to the server: Read returned %d bytes, %s (it must be ignored silently)", got, prob), c)
+		return
+	}
+	sl, si := lenDist(p.srv.conn), iatDist(p.srv.conn)
+	if sl.str != own.str || (ownIat != nil && (si == nil || si.str != ownIat.str)) {
+		r.Violate("server-adopts-foreign-seed", "impl-oracle",
+			fmt.Sprintf("bridge seed %s: after a peer sent a PRNG-seed packet carrying %s the bridge's length table is %s… (its own seed gives %s…) — only the client may adopt a seed", c.Seed, c.Foreign, clip(joinInts(sl.values), 50), clip(joinInts(own.values), 50)), c)
+		return
+	}
+	// C: the model's adoption step on the server side leaves the seeds alone
+	dg := sha256.Sum256(foreign)
+	iatS := "-"
+	if c.SrvIat != 0 {
+		iatS = iatSeedOf(c.Seed)
+	}
+	rep := ds.Call("adopt 1 %s %s %s %s", c.Seed, iatS, c.Foreign, hex.EncodeToString(dg[:]))
+	if rep != c.Seed+" "+iatS {
+		r.Violate("server-adopt-model-impl-disagree", "correspondence", fmt.Sprintf("model: server seeds after a foreign seed packet are %q, implementation keeps %s %s", rep, c.Seed, iatS), c)
+		return
+	}
+	// the bridge's later bursts still follow its own table (oracle + model with its own seed)
+	if tableClass(sl.values) != "normal" && p.srvIat == 2 {
+		return
+	}
+	sent := 0
+	for k := 0; k < 2; k++ {
+		n := vlib.Pick(rng, writeSizes)
+		if !runWrite(r, ds, p, "server", n, indicesFor(rng, own, p.srvIat, n, "big"), c) {
+			return
+		}
+		sent += n
+	}
+	deliver(p.srv, p.cli)
+	if got, prob := drain(p.cli); got != sent || prob != "" {
+		r.Violate("client-does-not-receive-server-bytes", "impl-oracle", fmt.Sprintf("server wrote %d bytes, client read %d (%s)", sent, got, prob), c)
+		return
+	}
+	// the injected frame was a regular frame of the client's stream: the client can go on
+	res := doWrite(p.cli, []byte("after"), nil, sampleCap)
+	deliver(p.cli, p.srv)
+	if got, prob := drain(p.srv); res.panicked == "" && !res.aborted && (got != 5 || prob != "") {
+		r.Violate("server-does-not-receive-client-bytes", "impl-oracle", fmt.Sprintf("after the seed packet the client wrote 5 bytes, server read %d (%s)", got, prob), c)
+	}
+}
+
+// reseedRace: the bridge streams seed packets alternating a large and a tiny table while the
+// client application keeps writing from another goroutine (Read and Write of a net.Conn may run
+// concurrently; Reset and Sample meet on the distribution's mutex). Nothing may panic, every
+// Write must succeed, and afterwards the client holds the table of the last seed.
+func reseedRace(r *vlib.Run, p *pair, c scenarioCase) {
+	key := fmt.Sprintf("reseed-race|%s|%s|%d|%d|%v", c.SeedA, c.SeedB, c.CliIat, c.Packets, c.Biased)
+	r.Case(key, true)
+	r.Count("reseed-race", fmt.Sprintf("cli-iat=%d packets=%d", c.CliIat, c.Packets))
+	enc := obfs4.VerifC10Encoder(p.srv.conn)
+	a, _ := hex.DecodeString(c.SeedA)
+	b, _ := hex.DecodeString(c.SeedB)
+	last := c.SeedA
+	for k := 0; k < c.Packets; k++ {
+		if k%2 == 0 {
+			p.cli.sc.Feed(seedFrame(enc, a))
+			last = c.SeedA
+		} else {
+			p.cli.sc.Feed(seedFrame(enc, b))
+			last = c.SeedB
+		}
+	}
+	var wg sync.WaitGroup
+	var readProblem, writePanic string
+	var writeErr error
+	var done int32
+	writes := 0
+	wg.Add(2)
+	go func() {
+		defer wg.Done()
+		defer atomic.StoreInt32(&done, 1)
+		_, readProblem = drain(p.cli)
+	}()
+	go func() {
+		defer wg.Done()
+		data := make([]byte, 64)
+		for atomic.LoadInt32(&done) == 0 || writes < 50 {
+			var n int
+			var err error
+			if pan := protect(func() { n, err = p.cli.conn.Write(data[:1+writes%64]) }); pan != "" {
+				writePanic = pan
+				return
+			}
+			if err != nil || n != 1+writes%64 {
+				writeErr = fmt.Errorf("Write returned (%d, %v)", n, err)
+				return
+			}
+			writes++
+			if writes > 2000000 {
+				return
+			}
+		}
+	}()
+	wg.Wait()
+	r.Validated(1)
+	switch {
+	case writePanic != "":
+		r.Violate("write-panics-under-concurrent-reseed", "impl-oracle",
+			fmt.Sprintf("client (iat-mode %d) writing while %d seed packets alternating a %d-value and a %d-value table arrive: Write panicked after %d writes: %s", c.CliIat, c.Packets, len(tableOfSeed(c.SeedA)), len(tableOfSeed(c.SeedB)), writes, writePanic), c)
+		return
+	case writeErr != nil:
+		r.Violate("write-fails-under-concurrent-reseed", "impl-oracle", writeErr.Error(), c)
+		return
+	case readProblem != "":
+		r.Violate("read-fails-under-concurrent-reseed", "impl-oracle", "client Read while seed packets stream in: "+readProblem, c)
+		return
+	}
+	if got, want := lenDist(p.cli.conn), ownDist(last, mss, c.Biased); got.str != want.str {
+		r.Violate("client-does-not-adopt-server-length-distribution", "impl-oracle",
+			fmt.Sprintf("after %d streamed seed packets the client's length table is not that of the last seed %s", c.Packets, last), c)
+	}
+}
+
 func scenario(r *vlib.Run, ds, dd *vlib.Driver, c scenarioCase) {
 	defer func() {
 		if p := recover(); p != nil {
@@ -873,7 +1046,7 @@ func scenario(r *vlib.Run, ds, dd *vlib.Driver, c scenarioCase) {
 	cryptRand.Reader = reader
 	csrand.Reader = reader
 	// a quarter of the adoption scenarios deliver the seed frame coalesced with the response
-	coalesce := c.Op != "write1" && c.RngKey%4 == 0
+	coalesce := (c.Op != "write1" && c.RngKey%4 == 0) || c.Op == "foreign-seed" || c.Op == "reseed-race"
 	p, err := newPair(c.Seed, c.SrvIat, c.CliIat, c.Biased, coalesce)
 	if err != nil {
 		r.Case(fmt.Sprintf("conn|%+v", c), false)
@@ -889,6 +1062,14 @@ func scenario(r *vlib.Run, ds, dd *vlib.Driver, c scenarioCase) {
 	sl := lenDist(p.srv.conn)
 	r.Count("server-table", tableClass(sl.values))
 
+	switch c.Op {
+	case "foreign-seed":
+		foreignSeed(r, ds, dd, p, c, rng)
+		return
+	case "reseed-race":
+		reseedRace(r, p, c)
+		return
+	}
 	if c.Op == "write1" {
 		switch c.Side {
 		case "server", "client-pre":
@@ -1132,6 +1313,37 @@ func main() {
 		scenario(r, ds, dd, c)
 		if abortedUnknown > 3 {
 			r.Notes["stopped_early"] = "more than 3 Writes did not return; remaining connection scenarios skipped"
+			break
+		}
+	}
+
+	// ---- (d) a peer sends a PRNG-seed packet to the bridge: only the client adopts
+	frng := rng.Fork()
+	for i, n := 0, r.Scale(9, 60); i < n; i++ {
+		seed, _ := findSeed(frng, 5000, func(v []int) bool { return tableClass(v) == "normal" })
+		foreign, _ := findSeed(frng, 5000, func(v []int) bool { return tableClass(v) == "normal" })
+		scenario(r, ds, dd, scenarioCase{Op: "foreign-seed", Seed: seed, Foreign: foreign, SrvIat: i % 3, CliIat: (i / 3) % 3, Biased: i%2 == 1, RngKey: frng.U64()})
+	}
+
+	// ---- (e) seed packets streaming in while the client writes (Reset vs Sample, truly concurrent)
+	crng := rng.Fork()
+	races, packets := 4, 300
+	if r.Thorough() {
+		races, packets = 12, 600
+	}
+	if r.Mode == "search" {
+		races, packets = 40, 2000
+	}
+	seedA, _ := findSeed(crng, 5000, func(v []int) bool { return len(v) >= 80 })
+	seedB, _ := findSeed(crng, 20000, func(v []int) bool { return len(v) <= 2 })
+	for i := 0; i < races && seedA != "" && seedB != ""; i++ {
+		mode := 0
+		if (r.Thorough() || r.Mode == "search") && i%4 == 3 {
+			mode = 1
+		}
+		seed, _ := findSeed(crng, 5000, func(v []int) bool { return tableClass(v) == "normal" })
+		scenario(r, ds, dd, scenarioCase{Op: "reseed-race", Seed: seed, SeedA: seedA, SeedB: seedB, Packets: packets, SrvIat: 0, CliIat: mode, Biased: i%2 == 1, RngKey: crng.U64()})
+		if r.NumViolations() > 0 && r.Mode != "search" {
 			break
 		}
 	}
